@@ -6,9 +6,9 @@ class ProbeError(Exception):
     pass
 
 
-def detector(rows=3, cols=4, kind="CCD", **chars):
+def detector(rows=3, cols=4, kind="CCD", pixel_vert_size=1.0, pixel_horz_size=1.0, **chars):
     from pyxel.detectors import CCD, CCDGeometry, Characteristics, Environment
-    return CCD(geometry=CCDGeometry(row=rows, col=cols, pixel_vert_size=1.0, pixel_horz_size=1.0, total_thickness=1.0),
+    return CCD(geometry=CCDGeometry(row=rows, col=cols, pixel_vert_size=pixel_vert_size, pixel_horz_size=pixel_horz_size, total_thickness=1.0),
                environment=Environment(), characteristics=Characteristics(**chars))
 
 
